@@ -54,11 +54,16 @@ class MathProxy:
         return r
 
 
-def check_token(tok, x):
+def check_token(tok, x, angle=False):
     """problems of one formatted component `tok` of value x (finite): list of (key, text)"""
     out = []
     if tok == '-0':
-        out.append(('text-minus-zero', f"component formats as '-0' (value {x!r})"))
+        # format_float prints '-0' exactly for negative values that round to zero at 6 places (open finding
+        # text-minus-zero, pinned by the repo's tests for vectors); anywhere else it is a new violation
+        if x < 0 and ('%.6f' % (x + 0.0)) == '-0.000000' and not angle:
+            out.append(('text-minus-zero', f"component formats as '-0' (value {x!r})"))
+        else:
+            out.append(('text-minus-zero-unexpected', f"component formats as '-0' (value {x!r}, angle={angle})"))
     elif not TOKEN_RE.match(tok):
         out.append(('text-shape', f'component {tok!r} (value {x!r}) is not -?digits[.1-6 digits]'))
     else:
@@ -536,7 +541,7 @@ class Runner:
                             if x != x or x in (float('inf'), float('-inf')):
                                 wit.append(('overflow-nonfinite', f'{how} of an object holding {x!r}: {text!r}', step['id']))
                                 continue
-                            for key, what in check_token(t, x):
+                            for key, what in check_token(t, x, angle=r['kind'] in ('A', 'FA')):
                                 wit.append((key, f'{type(o).__name__} {how}: {what}', step['id']))
                         if r['mid'] is not None:
                             mops.append(['str', r['mid']]); expect.append([ord(c) for c in ' '.join(toks)])
